@@ -178,10 +178,7 @@ func VerifC14CodecFiles() {
 	fs, fc := c14Find(verif.Trace(ps), suffix), c14Find(verif.Trace(pc), suffix)
 	verif.Assert("C14/server-emits-codec-file", fs != nil)
 	if !withService && (feature == 0 || feature == 1) {
-		// known finding: the client emits int64/enum codecs only for files that have services
-		verif.Expect("KF-C14-client-skips-int64-and-enum-codecs-in-files-without-services", fc != nil)
-		verif.Reach("C14/kf-no-service")
-		return
+		verif.Reach("C14/no-service") // region of the defect repaired in b1a8671
 	}
 	if feature == 8 {
 		// known finding: the client plugin has no unwrap emitter at all
